@@ -56,7 +56,7 @@ def execute(pid, plan, keep_events=False):
   # machine) plus a much longer wall-clock fallback for blocked runs
   old = signal.signal(signal.SIGALRM, _alarm)
   oldp = signal.signal(signal.SIGPROF, _alarm)
-  signal.setitimer(signal.ITIMER_PROF, RUN_TIMEOUT_S)
+  signal.setitimer(signal.ITIMER_PROF, RUN_TIMEOUT_S, 1.0)   # re-fires every CPU second until it escapes
   signal.alarm(RUN_WALL_TIMEOUT_S)
   try:
     res = mod.run_plan(plan)
@@ -88,8 +88,12 @@ def _task(args):
   for i in indices:
     rs = run_seed(vseed, pid, i)
     try:
-      plan = mod.gen_plan(rs, tier)
-    except Exception:
+      signal.setitimer(signal.ITIMER_PROF, RUN_TIMEOUT_S, 1.0)
+      try:
+        plan = mod.gen_plan(rs, tier)
+      finally:
+        signal.setitimer(signal.ITIMER_PROF, 0)
+    except (Exception, RunTimeout):
       out.append(dict(index=i, run_seed=rs,
                       harness_error="gen_plan: " + traceback.format_exc()[-1200:],
                       violation=None, inconclusive=[], cov={}, shape="",
